@@ -223,5 +223,5 @@ _add("C18", tech="sketch driven with int, string, struct and float keys (+0.0 / 
 _add("C17", tech="cache-level sequential engine: whole-API programs against the reference model with a single 16-slot read-buffer stripe, bursts of 17-40 reads and a harness-held executor, so that read events are dropped constantly; every mismatch of such a run is also C17's",
      level="A cache-level engine checks that results do not depend on dropped reads.",
      rule="Cache-level engine: one case = (configuration, operation sequence); non-trivial: at least 17 reads of live keys.")
-_add("C19", tech="slow streams: every Read of LoadCacheFrom may move the clock, so load time is an interval")
+_add("C19", tech="slow streams: every Read of LoadCacheFrom may move the clock, so load time is an interval; separate relaxed engine with stream faults (truncation, failing Read, failing Write of the save): whatever is loaded must still be a saved, unexpired entry with its deadlines")
 _add("C07", tech="maxima beyond 32 bits and weights near 2^32")
